@@ -31,7 +31,8 @@ def corpus_spec():
 # ---- tree -2: field names equal to the local variables of the generated deserializers (known finding 12).
 # Hand-written, never produced by SpecGen's name pools, run by C01 and C15 only; a violation on one of these
 # classes is reported under the mechanism 'field-name-captures-generated-local:<name>'.
-CAPTURE = {"LoopCapture": "i", "ReaderCapture": "reader", "StartCapture": "reader_start_position", "ModeCapture": "old_chunked_reading_mode"}
+CAPTURE = {"LoopCapture": "i", "ReaderCapture": "reader", "StartCapture": "reader_start_position", "ModeCapture": "old_chunked_reading_mode",
+           "LengthCapture": "ARRAY_length", "CountCapture": "ARRAY_count", "SizeCapture": "ARRAY_size"}
 CAPTURE_XML = """<protocol>
     <struct name="LoopCapture">
         <field name="i" type="char"/>
@@ -54,6 +55,20 @@ CAPTURE_XML = """<protocol>
             <field name="text" type="string"/>
         </chunked>
     </struct>
+    <struct name="LengthCapture">
+        <field name="ids_length" type="char"/>
+        <array name="ids" type="short"/>
+    </struct>
+    <struct name="CountCapture">
+        <field name="ids_count" type="char"/>
+        <array name="ids" type="short"/>
+    </struct>
+    <struct name="SizeCapture">
+        <field name="ids_size" type="char"/>
+        <field name="ids_len" type="char"/>
+        <field name="ids_data" type="char"/>
+        <array name="ids" type="short"/>
+    </struct>
     <struct name="NoCapture">
         <field name="index" type="char"/>
         <field name="result" type="char"/>
@@ -66,7 +81,17 @@ CAPTURE_XML = """<protocol>
 
 def capture_spec():
     files = {k: "<protocol>\n</protocol>\n" for k in ("", "map", "net/client", "net/server", "pub", "pub/server")}
-    files["net"] = corpus_files()["net"]
+    files["net"] = """<protocol>
+    <enum name="PacketFamily" type="byte">
+        <value name="Connection">1</value>
+        <value name="Init">255</value>
+    </enum>
+    <enum name="PacketAction" type="byte">
+        <value name="Request">1</value>
+        <value name="Init">255</value>
+    </enum>
+</protocol>
+"""
     files[""] = CAPTURE_XML
     return S.parse(files)
 
@@ -157,6 +182,34 @@ def moved_revision(spec):
     return None if bad_names or grammar.check(moved) else moved
 
 
+def broken_revision(spec):
+    """A revision of the same files the generator gives up on half-way: an instruction of an unknown type at the end of
+    every chunked section and every switch case (or, failing those, of the last struct).  The run fails inside a
+    nested construct; the instance - and the process - that saw it fail is used again for the revision under test."""
+    sp = spec.clone()
+    hit = [0]
+
+    def visit(body):
+        for ins in list(body):
+            if ins.kind == "chunked":
+                visit(ins.body)
+                ins.body.append(S.Field("zz_broken%d" % hit[0], "NoSuchType"))
+                hit[0] += 1
+            elif ins.kind == "switch":
+                for c in ins.cases:
+                    visit(c.body)
+                    c.body.append(S.Field("zz_broken%d" % hit[0], "NoSuchType"))
+                    hit[0] += 1
+    last = None
+    for f in sp.files.values():
+        for d in list(f.structs) + list(f.packets):
+            visit(d.body)
+            last = d
+    if not hit[0] and last is not None:
+        last.body.append(S.Field("zz_broken", "NoSuchType"))
+    return sp
+
+
 class Tree:
     """A spec staged through the real generator and imported (context manager).  Every other tree (by content) is
     generated by a generator instance that has read an earlier revision of the same files before."""
@@ -168,8 +221,11 @@ class Tree:
         self.error = None
         import zlib
 
-        self.generator_reused = (zlib.crc32(repr(sorted(self.files.items())).encode()) % 2 == 0) if reuse is None else reuse
-        self.prior = S.render(earlier_revision(spec), explicit=explicit) if self.generator_reused else None
+        h = zlib.crc32(repr(sorted(self.files.items())).encode())
+        self.generator_reused = (h % 2 == 0) if reuse is None else reuse
+        # the revision read before: alternately an earlier, well-formed one and one the generator fails on
+        self.prior_failed = self.generator_reused and h % 4 == 2
+        self.prior = S.render((broken_revision if self.prior_failed else earlier_revision)(spec), explicit=explicit) if self.generator_reused else None
 
     def __enter__(self):
         st, ok, err, out = stage.full(self.files, prior_files=self.prior)
